@@ -1,5 +1,6 @@
 import PcfgVerif.Properties.OmenTrainCore
 import PcfgVerif.Lemmas.OmenFilesD
+import PcfgVerif.Lemmas.OmenCountLemmas
 /-!
 # C11 — trainer, scorer and guesser agree on every string's OMEN level
 
@@ -59,5 +60,42 @@ theorem C11_guesser_from_files (t : TTables) (hwf : t.WF) (target : Nat) :
 example : ∃ tb s0, exTT.loadTables = some tb ∧ tb.start = some s0 := by
   obtain ⟨tb, h1, h2, _⟩ := C11_guesser_from_files exTT exTT_wf 0
   exact ⟨tb, _, h1, h2.trans exTT_start⟩
+
+/-- **the hypothesis `WF` is a theorem for what the trainer builds.**  `trainTTables` is the OMEN half of the trainer as a
+function of the password list (`Model/OmenCount.lean`: `AlphabetGenerator`, `AlphabetLookup.parse`, `apply_smoothing`); `lvl` is
+`_calc_level`, of which only the clamp to `0..maxLevel` is used (`log` / `floor` are opaque to the kernel).  For every password
+list, alphabet size, n-gram size ≥ 2 and length window the smoothed tables have every (n−1)-gram once, every next letter once per
+(n−1)-gram, keys of length n−1 and all levels within `0..maxLevel`. -/
+theorem C11_trained_tables_wf (lvl : Nat → Nat → Nat → Nat) (alphabetSize ngram minLength maxLength maxLevel : Nat)
+    (hn : 2 ≤ ngram) (hl : ∀ a b c, lvl a b c ≤ maxLevel) (pws : List Str) :
+    (trainTTables lvl alphabetSize ngram minLength maxLength maxLevel pws).WF :=
+  let g := trainTTables_good lvl alphabetSize ngram minLength maxLength maxLevel hn hl pws
+  ⟨g.ngram_ge, g.keys_nodup, g.key_len, g.letters_nodup, g.ip_levels, g.cp_levels, g.ln_levels⟩
+
+/-- **C11 from the training list to the guess**, no hypothesis about tables or files left: for every training list and every
+string, the scorer's level is the trainer's level, the OMEN files the trainer writes load, and the generator run over the loaded
+tables emits the string at level `L` (once) iff the trainer's third pass assigns `L` to it -/
+theorem C11_trained (lvl : Nat → Nat → Nat → Nat) (alphabetSize ngram minLength maxLength maxLevel : Nat)
+    (hn : 2 ≤ ngram) (hl : ∀ a b c, lvl a b c ≤ maxLevel) (pws : List Str) (target : Nat) :
+    let t := trainTTables lvl alphabetSize ngram minLength maxLength maxLevel pws
+    (∀ s, t.scorerLevel s = t.trainerLevel s) ∧
+    ∃ tb, t.loadTables = some tb ∧
+      ∀ s0, tb.start = some s0 →
+        ∃ N, (∀ fuel, N ≤ fuel → tb.enumFrom target fuel s0 = tb.enumFrom target N s0) ∧
+          (tb.enumFrom target N s0).Nodup ∧
+          ∀ s : Str, s ∈ tb.enumFrom target N s0 ↔ t.trainerLevel s = some target := by
+  intro t
+  have hwf := C11_trained_tables_wf lvl alphabetSize ngram minLength maxLength maxLevel hn hl pws
+  refine ⟨fun s => C11_scorer t hwf s, ?_⟩
+  obtain ⟨tb, h1, _, h3⟩ := C11_guesser_from_files t hwf target
+  exact ⟨tb, h1, h3⟩
+
+/-- non-vacuity (kernel-evaluated; the alphabet is given, its sorting does not reduce in the kernel): three passwords over `a`, `b`,
+bigrams, a level function that is not constant -/
+example :
+    let t := (countTables ['a', 'b'] 2 1 4 [['a', 'b', 'a'], ['a', 'b'], ['b', 'b', 'a']]).toTTables
+      (fun c tot _ => if 2 * c ≥ tot then 0 else 1) 2 3
+    t.entries.map (·.key) = [['a'], ['b']] ∧ t.trainerLevel ['a', 'b', 'a'] = some 0 ∧ t.trainerLevel ['b', 'b', 'a'] = some 2 ∧ t.lns = [1, 1, 0, 1] := by
+  decide +kernel
 
 end Pcfg.C11
